@@ -13,6 +13,7 @@ RULE = ("values = strings up to length 4 over {a, b, -, /, *, ?, \\\\, %, Ã¤, â‚
         "modifier table x a value sample, chains of length 3..4 sampled (admissible and inadmissible); distinct = distinct "
         "(key, value); non-trivial = chain length >= 2 or a value with a special character"
         "; plus every string modifier next to `expand` in both orders on placeholder values")
+RULE += "; round 4: `re|expand` judged (the pattern's text after the placeholder scan, Spec.Mods.expandRe): patterns with escaped backslashes, wildcard characters, escaped percent signs"
 ASSUMPTIONS = [
     "Python re decides validity of regular expressions and the word-character class \\w (passed to the specification per case)",
     "Python ipaddress decides validity of CIDR text",
@@ -73,6 +74,10 @@ def gen_cases(tier, seed, gen, effort):
         for v in ["%tool% -k", "%tool%", "-a %x% /b", "a\\%b%c", "x%p%", ["%p%", "-q"]]:
             add(["expand", m], v); add([m, "expand"], v)
             add(["expand", m, "contains"], v)
+    # placeholders inside regular expressions (both orders do not exist: `re` must come first); patterns with escaped backslashes,
+    # wildcard characters, escaped percent signs
+    for v in ["foo\\\\bar%x%", "^%admin%@corp$", "C:\\\\Users\\\\%u%\\\\.*", "a\\%b%c", "a*%x%?b", "x\\.y", "\\\\\\\\srv\\\\share", "%a% %b%", "a%b", "[%]%x%", "\\d+%n%"]:
+        add(["re", "expand"], v); add(["re", "i", "expand"], v); add(["re", "expand", "i"], v); add(["re"], v)
     return cases, True
 
 
@@ -156,7 +161,7 @@ def _excusable(case, spec_ok):
                 # modifiers after re may build an invalid expression too (e.g. contains around an anchored one): accept
         return "regex-validity" if any(m in mods for m in ("contains", "startswith", "endswith")) else None
     if "expand" in mods and "re" in mods:
-        return "expand-on-regex-not-modelled"
+        return "regex-validity"          # the pattern is compiled again after the scan
     if "cidr" in mods:
         import ipaddress
         for v in vals:
@@ -188,8 +193,6 @@ def judge(case, impl, reply):
     if spec_ok and io == "ok":
         want = reply["ok"]
         got = {"vals": impl["vals"], "linkAnd": impl["linkAnd"], "negated": impl["negated"]}
-        if got != want and "expand" in mods and "re" in mods:
-            return Verdict("ok", "", nt, key, tags=tags + ("unjudged:expand-on-regex",))
         if got != want:
             fid = "D18" if "utf16" in mods else None
             return Verdict("violation", f"{case['key']!r}: {case['value']!r} -> {brief(got)} but the specification defines {brief(want)}", nt, key, finding=None, tags=tags)
